@@ -1081,6 +1081,14 @@ pub fn run() {
       }
     });
   }
+  {
+    let g = family_graphs(&PLAIN, 2, &[3]).into_iter().last().unwrap();
+    let env = Env { inputs: vec![Some("x".into()), None], overrides: BTreeMap::new() };
+    run.sample(json!({"family":"graph","invocable":"D2","input":"{I1: \"x\"}","expected":g.dec_ref(1, &env).show(),"model_excerpt":g.model().to_xml().chars().take(900).collect::<String>()}));
+    if let Some((s, extra)) = family_services(&PLAIN, false).into_iter().nth(200) {
+      run.sample(json!({"family":"service","variant":extra,"service":format!("{:?}", s.svcs[0])}));
+    }
+  }
   run.set("states", json!(cnt.models.load(Ordering::Relaxed)));
   run.set("transitions", json!(cnt.evals.load(Ordering::Relaxed)));
   run.set("traces_validated_against_impl", json!(cnt.compared.load(Ordering::Relaxed)));
